@@ -133,8 +133,11 @@ FaultCases ==
 FaultPlans(f, cut) ==
   LET comps == IF cut <= (IF Thorough THEN 8 ELSE 5) THEN Compositions(cut)
                ELSE {<<cut>>, [i \in 1..cut |-> 1], <<1, cut - 1>>, <<cut - 1, 1>>}
+      \* zero-length reads on the way to the cut: before the first byte, before the second, behind the fixed header
+      zeros == IF cut >= 2 THEN {<<0, cut>>, <<1, 0, cut - 1>>, <<1, 0, 0, cut - 1>>} \cup (IF cut >= 3 THEN {<<2, 0, cut - 2>>} ELSE {}) ELSE {}
   IN {[chunks |-> cmp, fate |-> ft, with |-> w, cut |-> cut] :
         cmp \in comps, ft \in {"eof", "err"}, w \in (IF cut = 0 THEN {FALSE} ELSE BOOLEAN)}
+     \cup {[chunks |-> cmp, fate |-> ft, with |-> FALSE, cut |-> cut] : cmp \in zeros, ft \in {"eof", "err"}}
 
 FaultProg(x) ==
   LET plans == SetToSeq(FaultPlans(x.f, x.cut))
@@ -175,6 +178,27 @@ SeqLongProg(x) ==
              \o [i \in 1..x.n |-> [op |-> "ReadPacket", h |-> 2 + (i % 3), stream |-> 1]]
              \o <<[op |-> "ReadPacket", h |-> 9, stream |-> 1], [op |-> "WriteTo", h |-> 1], [op |-> "Diag", h |-> 1]>>]
 
+(* C07 for whole streams: a sequence of frames (rejected ones among them) delivered in one piece, then again one byte at a   *)
+(* time, through bufio in one piece / in small pieces / with io.EOF on the last bytes: call by call the same outcome         *)
+SeqSchedCases == {[kind |-> "seqsched", fs |-> <<a, b, c3>>] :
+                    a \in {<<64, 1, 0>>, <<32, 5, 0, 0, 2, 37, 2>>, <<48, 5, 0, 1, 97, 0, 122>>, <<130, 7, 0, 1, 0, 0, 5, 97, 1>>, <<192, 2, 1, 2>>},
+                    b \in {<<192, 0>>, <<50, 6, 0, 1, 97, 0, 7, 0>>, <<64, 3, 0, 1, 16>>},
+                    c3 \in {<<224, 0>>, <<32, 3, 0, 0, 0>>}}
+SeqSchedProg(x) ==
+  LET bytes == Concat(x.fs)
+      n == Len(bytes)
+      reads == [i \in 1..5 |-> [op |-> "ReadPacket", h |-> i, stream |-> 1]]
+      deliver(plan, key) == <<IF key = "" THEN [op |-> "Stream", stream |-> 1, bytes |-> bytes, reader |-> plan]
+                                           ELSE [op |-> "Stream", stream |-> 1, bytes |-> bytes, reader |-> plan, key |-> key]>> \o reads IN
+  [fam |-> "sched", meta |-> [kind |-> x.kind],
+   steps |-> <<[op |-> "Stream", stream |-> 1, bytes |-> bytes]>> \o reads
+             \o deliver([chunks |-> [i \in 1..n |-> 1], fate |-> "eof", with |-> FALSE], "")
+             \o deliver([chunks |-> <<>>, fate |-> "eof", with |-> FALSE], "bufio")
+             \o deliver([chunks |-> [i \in 1..n |-> 1], fate |-> "eof", with |-> TRUE], "bufio")
+             \o deliver([chunks |-> <<3, 0, 2>>, fate |-> "eof", with |-> TRUE], "bufio16")
+             \o deliver([chunks |-> <<>>, fate |-> "eof", with |-> TRUE], "")
+             \o deliver([chunks |-> <<>>, fate |-> "eof", with |-> FALSE], "bytes.Buffer")]
+
 SeqHugeCases == IF Thorough THEN {[kind |-> "seqhuge", n |-> 1048580]} ELSE {}
 SeqHugeProg(x) ==
   [fam |-> "seq", meta |-> [kind |-> x.kind],
@@ -211,9 +235,12 @@ FirstValid(x) == x.body \in BodiesFor(x.b \div 16)
 FirstProg(x) ==
   LET f == <<x.b>> \o VBI(Len(x.body)) \o x.body IN
   [fam |-> "first", meta |-> [b |-> x.b],
-   steps |-> << [op |-> "Stream", stream |-> 1, bytes |-> f \o <<208, 0>> \o <<32, 3, 0, 0, 0>>, observe |-> "all"],
+   steps |-> << [op |-> "Stream", stream |-> 1, observe |-> "all",
+                 bytes |-> f \o <<208, 0>> \o <<32, 3, 0, 0, 0>> \o <<(x.b \div 16) * 16 + (15 - (x.b % 16))>> \o VBI(Len(x.body)) \o x.body],
                 [op |-> "ReadPacket", h |-> 1, stream |-> 1], [op |-> "Diag", h |-> 1],
                 [op |-> "ReadPacket", h |-> 2, stream |-> 1], [op |-> "ReadPacket", h |-> 3, stream |-> 1],
+                \* the same type again with the other flag bits, then the first packet written once more: still its own first byte
+                [op |-> "ReadPacket", h |-> 8, stream |-> 1], [op |-> "WriteTo", h |-> 1],
                 \* the same frame again, a zero-length read before its first byte and before its body
                 [op |-> "Stream", stream |-> 1, bytes |-> f, reader |-> [chunks |-> <<0, 1, 0, 1, 0>>, fate |-> "eof", with |-> FALSE]],
                 [op |-> "ReadPacket", h |-> 4, stream |-> 1],
@@ -243,7 +270,8 @@ WfPubProg(x) ==
              \o <<[op |-> "Diag", h |-> 1], [op |-> "WriteTo", h |-> 1], [op |-> "Stream", stream |-> 1, from |-> 1],
                   [op |-> "ReadPacket", h |-> 2, stream |-> 1], [op |-> "Diag", h |-> 2]>>]
 
-SubIdChoices == {-1, 1, MaxVBI, MaxVBI + 1, 2147483647}
+SubIdChoices == {-1, 1, MaxVBI, MaxVBI + 1, 2147483647, -32, -3239, -62}      \* -k: the value 2^k, -3239: 2^32 + 39 (beyond TLC's integers,
+                                                                               \* passed symbolically; every accessor value above 2^31 - 1 is logged as 2^31 - 1)
 WfSubscribeCases ==
   {[kind |-> "wfsub", nf |-> nf, sid |-> sid, opt |-> opt, empty |-> em] :
      nf \in 0..3, sid \in SubIdChoices, opt \in (IF Thorough THEN 0..255 ELSE {0, 1, 2, 3, 7, 44, 63, 64, 128, 255}), em \in BOOLEAN}
@@ -252,10 +280,11 @@ WfSubProg(x) ==
   LET filt(i) == << IF x.empty /\ i = x.nf THEN <<>> ELSE Txt(2), IF i = x.nf THEN x.opt ELSE 1 >> IN
   [fam |-> "wf", meta |-> [kind |-> x.kind],
    steps |-> <<[op |-> "New", h |-> 1, type |-> "Subscribe"], CallOp(1, "SetPacketID", <<3>>)>>
-             \o (IF x.sid # -1 THEN <<CallOp(1, "SetSubscriptionID", <<x.sid>>)>> ELSE <<>>)
+             \o (IF x.sid < -1 THEN <<CallOp(1, "SetSubscriptionID", <<[pow |-> IF x.sid = -3239 THEN 32 ELSE 0 - x.sid, plus |-> IF x.sid = -3239 THEN 39 ELSE 0]>>)>>
+                 ELSE IF x.sid # -1 THEN <<CallOp(1, "SetSubscriptionID", <<x.sid>>)>> ELSE <<>>)
              \o (IF x.nf > 0 THEN <<CallOp(1, "AddFilters", [i \in 1..x.nf |-> filt(i)])>> ELSE <<>>)
              \o <<[op |-> "Diag", h |-> 1]>>
-             \o (IF x.sid <= MaxVBI /\ x.nf > 0
+             \o (IF x.sid >= -1 /\ x.sid <= MaxVBI /\ x.nf > 0
                  THEN <<[op |-> "WriteTo", h |-> 1], [op |-> "Stream", stream |-> 1, from |-> 1],
                         [op |-> "ReadPacket", h |-> 2, stream |-> 1], [op |-> "Diag", h |-> 2]>>
                  ELSE <<>>)]
@@ -545,6 +574,20 @@ VbiProg(x) ==
   ELSE [fam |-> "vbi", meta |-> [kind |-> x.kind], steps |-> <<[op |-> "VBI", key |-> "dec", bytes |-> x.s]>>]
 
 (* the subscription identifier and the remaining length through the public API *)
+(* the remaining length as it arrives on a stream: a frame whose remaining length takes 2 / 3 bytes, as the second frame of a  *)
+(* stream, the transport pausing after each byte of the length field; plain, through bufio, and with io.EOF on the last bytes *)
+VbiStreamCases == {[kind |-> "vbistream", n |-> n, pause |-> ps, key |-> ky] :
+                     n \in {122, 130, 16377, 16378, 20000}, ps \in 1..3, ky \in {"", "bufio", "bufio16"}}
+VbiStreamProg(x) ==
+  LET f == BigFrame(x.n)
+      bytes == <<192, 0>> \o f \o <<208, 0>>
+      plan == [chunks |-> <<2 + x.pause>>, fate |-> "eof", with |-> TRUE] IN
+  [fam |-> "vbi", meta |-> [kind |-> x.kind, n |-> x.n],
+   steps |-> <<IF x.key = "" THEN [op |-> "Stream", stream |-> 1, bytes |-> bytes, reader |-> plan]
+                          ELSE [op |-> "Stream", stream |-> 1, bytes |-> bytes, reader |-> plan, key |-> x.key],
+               [op |-> "ReadPacket", h |-> 1, stream |-> 1], [op |-> "ReadPacket", h |-> 2, stream |-> 1],
+               [op |-> "ReadPacket", h |-> 3, stream |-> 1], [op |-> "ReadPacket", h |-> 4, stream |-> 1]>>]
+
 VbiApiCases == {[kind |-> "vbiapi", v |-> v] : v \in {1, 127, 128, 16383, 16384, 2097151, 2097152, MaxVBI}}
 VbiApiProg(x) ==
   [fam |-> "vbi", meta |-> [kind |-> x.kind],
@@ -719,7 +762,7 @@ ManyProg(x) == ReadProg("many", Encode(ManyPkt(x)), [kind |-> x.kind, n |-> x.n,
 
 (***************************************************************************)
 Cases2 ==
-  IF FAMILY = "sched" THEN SchedCases \cup SchedBigCases
+  IF FAMILY = "sched" THEN SchedCases \cup SchedBigCases \cup (IF 1 \in TYPES THEN SeqSchedCases ELSE {})
   ELSE IF FAMILY = "fault" THEN FaultCases \cup FaultBigCases
   ELSE IF FAMILY = "seq" THEN SeqCases \cup SeqHugeCases \cup SeqLongCases
   ELSE IF FAMILY = "seqlong" THEN SeqLongCases
@@ -732,7 +775,7 @@ Cases2 ==
   ELSE IF FAMILY = "own" THEN OwnCases
   ELSE IF FAMILY = "reuse" THEN ReuseCases
   ELSE IF FAMILY = "many" THEN ManyCases
-  ELSE IF FAMILY = "vbi" THEN VbiCases \cup VbiApiCases
+  ELSE IF FAMILY = "vbi" THEN VbiCases \cup VbiApiCases \cup VbiStreamCases
   ELSE IF FAMILY = "conc" THEN {x \in ConcCases : ConcValid(x)} \cup ConcFrameCases
   ELSE Cases
 
@@ -747,6 +790,7 @@ ProgOf2(x) ==
   ELSE IF x.kind = "seq" THEN SeqProg(x)
   ELSE IF x.kind = "seqhuge" THEN SeqHugeProg(x)
   ELSE IF x.kind = "seqlong" THEN SeqLongProg(x)
+  ELSE IF x.kind = "seqsched" THEN SeqSchedProg(x)
   ELSE IF x.kind = "first" THEN FirstProg(x)
   ELSE IF x.kind = "wfpub" THEN WfPubProg(x)
   ELSE IF x.kind = "wfsub" THEN WfSubProg(x)
@@ -761,6 +805,7 @@ ProgOf2(x) ==
   ELSE IF x.kind \in {"own", "ownall", "owninto", "ownintocut"} THEN OwnProg(x)
   ELSE IF x.kind \in {"vbienc", "vbidec"} THEN VbiProg(x)
   ELSE IF x.kind = "vbiapi" THEN VbiApiProg(x)
+  ELSE IF x.kind = "vbistream" THEN VbiStreamProg(x)
   ELSE IF x.kind = "reuse" THEN ReuseProg(x)
   ELSE IF x.kind = "many" THEN ManyProg(x)
   ELSE IF x.kind = "conc" THEN ConcProg(x)
@@ -770,7 +815,7 @@ ProgOf2(x) ==
   ELSE ProgOf(x)
 
 Theorems2 ==
-  IF c.kind \in {"frame", "build", "cut", "undef", "bool", "prefix", "rlfifth", "vbi5", "badsubid", "foreign", "dupprop", "badutf8"} THEN Theorems
+  IF c.kind \in {"frame", "build", "cut", "undef", "bool", "prefix", "rlfifth", "vbi5", "badsubid", "foreign", "dupprop", "badutf8", "dupbad", "badtext"} THEN Theorems
   ELSE IF c.kind = "cred" THEN Len(SecretA(c)) = Len(SecretB(c)) /\ SecretA(c) # SecretB(c)
   ELSE IF c.kind = "vbienc" THEN \A v \in {y \in VbiValues : y >= c.lo /\ y < c.lo + 64} :
                                    /\ VBI(v) = VBI4(v) /\ Len(VBI(v)) = VBILen(v)
